@@ -347,8 +347,23 @@ import json as _json
 FPARSER = _options.get_parser()
 FPARSER._default_config_files = []          # no lookup of ./pyproject.toml etc.: the file content is passed in memory
 ACTIONS = [a for a in FPARSER._actions if a.option_strings and a.dest not in ("help", "version", "config")]
+import copy as _copy
+_PRISTINE = _copy.deepcopy(FPARSER._config_file_parser.config_parser if hasattr(FPARSER._config_file_parser, "config_parser") else None)
+
+
+def _fresh_config_parser():
+    """a run is a fresh process: whatever state the (module-level) config-file parser keeps between files starts from its initial value"""
+    cfp = FPARSER._config_file_parser
+    inner = getattr(cfp, "config_parser", None)
+    if inner is not None and _PRISTINE is not None:
+        fresh = _copy.deepcopy(_PRISTINE)
+        inner.__dict__.clear()
+        inner.__dict__.update(fresh.__dict__)
+
+
+OTHER_INI = "[metadata]\nname = project\nversion = 1.0\n\n[options]\npackages = find:\n"
 NACT = len(ACTIONS)
-STR_VALUES = ["abc", "a b", "x=y", "0", "é", "[not a list", "it's", "1.10", "false"]
+STR_VALUES = ["abc", "a b", "x=y", "0", "é", "[not a list", "it's", "1.10", "false", "C:\\temp\\new_dir"]
 INT_VALUES = [0, 1, 7, 12]
 LIST_VALUES = [["PUBLIC:a"], ["PUBLIC:a", "HIDDEN:b.*"], ["b", "a", "b"], ["0"], ["docs/my templates", "x\ty", "plain"], ["a,b", "c"]]
 
@@ -391,6 +406,18 @@ def _cli(a, v):
 def _file(a, v, fmt):
     """the setting written in a config file; fmt 0: pyproject.toml, 1: ini bare values, 2: ini quoted / python-list values"""
     k, key = _kind(a), _key(a)
+    if fmt == 3:
+        # pyproject.toml written with LITERAL strings (no escapes: backslashes are themselves) and a trailing comment
+        lit_ = lambda x: "'%s'" % x if "'" not in x and "\n" not in x and "\t" not in x else _json.dumps(x, ensure_ascii=False)
+        if k in ("true", "false"):
+            val = "true" if v else "false"
+        elif k in ("count", "int"):
+            val = str(v)
+        elif k == "append":
+            val = "[" + ", ".join(lit_(x) for x in v) + "]"
+        else:
+            val = lit_(v)
+        return "[tool.pydoctor]\n%s = %s  # a comment\n" % (key, val)
     if fmt == 0:
         if k in ("true", "false"):
             val = "true" if v else "false"
@@ -444,7 +471,16 @@ def check_option(ai, vi, fmt, mode):
         pass
     text = _file(a, v, fmt)
     cli = _cli(a, v)
-    if mode == 0:
+    _fresh_config_parser()
+    if mode == 3:
+        # history: another, INI-only, file of the project (a setup.cfg without pydoctor section) was read first by the same parser
+        _fresh_config_parser()
+        want, w2 = _parse([], text)
+        _fresh_config_parser()
+        _before, _w = _parse([], OTHER_INI)
+        got, w1 = _parse([], text)
+        what = "a config file means something else when another config file was read before it"
+    elif mode == 0:
         got, w1 = _parse([], text)
         want, w2 = _parse(cli)
         what = "config file value differs from the same value on the command line"
@@ -481,20 +517,20 @@ def check_option(ai, vi, fmt, mode):
     parts=lambda: list(range(NACT)), timeout=(200, 900), cls="E", tracing="concrete-after-choice", twin="first",
     code=["pydoctor.options.get_parser (every action of the real parser)", "pydoctor._configparser.TomlConfigParser.parse", "IniConfigParser.parse", "CompositeConfigParser.parse", "ValidatorParser.parse",
           "configargparse conversion of config items to command-line arguments"],
-    bounds={"quick": "every option of the argument parser (41) x representative values of its kind (flags on/off, counts 0..3, ints 0/1/7/12, 9 strings, 6 lists incl. items with inner spaces, tabs and commas) x {pyproject.toml, ini with bare values, ini with quoted / python-list values} x {file alone == command line alone, command line overrides file, unknown key warned and ignored}; file content passed in memory",
+    bounds={"quick": "every option of the argument parser (41) x representative values of its kind (flags on/off, counts 0..3, ints 0/1/7/12, 10 strings incl. a Windows path, 6 lists incl. items with inner spaces, tabs and commas) x {pyproject.toml, pyproject.toml with literal strings and trailing comments, ini with bare values, ini with quoted / python-list values} x {file alone == command line alone, command line overrides file, unknown key warned and ignored, same meaning after another INI-only file was read by the same parser}; file content passed in memory",
             "thorough": "same"},
     stubs=["the parser's default config file list is emptied on the harness's own parser instance; file content is handed over through configargparse's config_file_contents"],
     outside="reading the files from disk / cwd lookup, the -c/--config option, conversion of the namespace to Options (converters), values outside the tables",
 )
 def h_file_equals_cli(vi: int, fmt: int, mode: int) -> bool:
     """
-    pre: 0 <= vi <= 8 and 0 <= fmt <= 2 and 0 <= mode <= 2
+    pre: 0 <= vi <= 9 and 0 <= fmt <= 3 and 0 <= mode <= 3
     post: _
     """
     ai = PART if PART is not None else 11
-    vi = pick(vi, 0, 8)
-    fmt = pick(fmt, 0, 2)
-    mode = pick(mode, 0, 2)
+    vi = pick(vi, 0, 9)
+    fmt = pick(fmt, 0, 3)
+    mode = pick(mode, 0, 3)
     with NoTracing():
         if vi >= len(_values(ACTIONS[ai])):
             return True
